@@ -625,3 +625,65 @@ pub fn arrangement_side_points(segs: &[Seg], clear: f64, stats: &mut WitnessStat
 pub fn clearance(tol: f64, scale: f64) -> f64 {
     (10.0 * tol).max(1e-7 * scale.max(1e-300))
 }
+
+#[cfg(test)]
+mod selftest {
+    use super::*;
+    use crate::util::Rng;
+
+    #[test]
+    fn orient_agrees_with_integer_arithmetic() {
+        let mut rng = Rng(42);
+        for _ in 0..200_000 {
+            let r = [3i64, 50, 1 << 20, (1 << 25) - 1][rng.below(4) as usize];
+            let p = |rng: &mut Rng| (rng.range(-r, r) as f64, rng.range(-r, r) as f64);
+            let (a, b) = (p(&mut rng), p(&mut rng));
+            // third point often collinear
+            let c = if rng.below(2) == 0 { (a.0 + 3.0 * (b.0 - a.0), a.1 + 3.0 * (b.1 - a.1)) } else { p(&mut rng) };
+            assert_eq!(orient(a, b, c), orient_int(a, b, c), "{:?} {:?} {:?}", a, b, c);
+        }
+    }
+
+    #[test]
+    fn segment_relations() {
+        let s = ((0.0, 0.0), (4.0, 4.0));
+        assert_eq!(seg_rel(s, ((0.0, 4.0), (4.0, 0.0))), Rel::Cross);
+        assert_eq!(seg_rel(s, ((2.0, 2.0), (5.0, 0.0))), Rel::Tee);
+        assert_eq!(seg_rel(s, ((4.0, 4.0), (5.0, 0.0))), Rel::SharedVertex);
+        assert_eq!(seg_rel(s, ((4.0, 4.0), (6.0, 6.0))), Rel::SharedVertex);
+        assert_eq!(seg_rel(s, ((2.0, 2.0), (6.0, 6.0))), Rel::Overlap);
+        assert_eq!(seg_rel(s, ((4.0, 4.0), (0.0, 0.0))), Rel::Identical);
+        assert_eq!(seg_rel(s, ((5.0, 5.0), (6.0, 6.0))), Rel::Disjoint);
+        assert_eq!(seg_rel(s, ((0.0, 1.0), (4.0, 5.0))), Rel::Disjoint);
+        assert_eq!(seg_rel(((0.0, 0.0), (0.0, 4.0)), ((0.0, 1.0), (0.0, 2.0))), Rel::Overlap);
+    }
+
+    #[test]
+    fn point_location_and_area() {
+        let sq: Ring = vec![(0.0, 0.0), (4.0, 0.0), (4.0, 4.0), (0.0, 4.0), (0.0, 0.0)];
+        let mut hole: Ring = vec![(1.0, 1.0), (3.0, 1.0), (3.0, 3.0), (1.0, 3.0), (1.0, 1.0)];
+        hole.reverse();
+        let mp: MP = vec![vec![sq.clone(), hole.clone()]];
+        assert!(in_mp(&mp, 0.5, 0.5) && !in_mp(&mp, 2.0, 2.0) && !in_mp(&mp, 5.0, 2.0));
+        assert!(in_evenodd(&mp, 0.5, 0.5) && !in_evenodd(&mp, 2.0, 2.0));
+        assert_eq!(mp_area2(&mp), 2.0 * 12.0);
+        assert_eq!(ring_area2(&sq), 32.0);
+        assert_eq!(canon_ring(&hole), canon_ring(&vec![(3.0, 3.0), (1.0, 3.0), (1.0, 1.0), (3.0, 1.0), (3.0, 3.0)]));
+        // unclosed ring is closed implicitly
+        assert!(in_ring(&vec![(0.0, 0.0), (4.0, 0.0), (4.0, 4.0), (0.0, 4.0)], 1.0, 1.0));
+    }
+
+    #[test]
+    fn arrangement_witnesses_cover_every_face() {
+        // two overlapping squares: faces A only, B only, both
+        let a: MP = vec![vec![vec![(0.0, 0.0), (4.0, 0.0), (4.0, 4.0), (0.0, 4.0), (0.0, 0.0)]]];
+        let b: MP = vec![vec![vec![(2.0, 2.0), (6.0, 2.0), (6.0, 6.0), (2.0, 6.0), (2.0, 2.0)]]];
+        let mut segs = segs_of(&a);
+        segs.extend(segs_of(&b));
+        let mut st = WitnessStats { pieces: 0, accepted: 0, skipped_unclear: 0 };
+        let pts = arrangement_side_points(&segs, 1e-6, &mut st);
+        let classes: std::collections::HashSet<(bool, bool)> = pts.iter().map(|p| (in_mp(&a, p.0, p.1), in_mp(&b, p.0, p.1))).collect();
+        assert_eq!(classes.len(), 4);
+        assert_eq!(st.skipped_unclear, 0);
+    }
+}
